@@ -116,12 +116,25 @@ Definition si_uy c pv y := aff_apply (fst (si_gy c pv)) y.
 Definition si_ncx c pv := ncells (snd (si_gx c pv)) (si_os c).
 Definition si_ncy c pv := ncells (snd (si_gy c pv)) (si_os c).
 
-Lemma si_kp_invisible : forall c pv, si_kp c pv None = (None, None).
+(* invisible keypoint = all-zero channel: NaN / 0 exactly when the threshold is positive or the
+   repair of F02z is in (zero_map_answer) *)
+Definition thr_masks_zero (thr0 fixed : bool) : Prop := thr0 = false \/ fixed = true.
+
+Lemma zero_map_answer_nan : forall thr0 fixed o, thr_masks_zero thr0 fixed -> zero_map_answer thr0 fixed o = (None, None).
+Proof. intros thr0 fixed o [H|H]; subst; unfold zero_map_answer; [reflexivity|]. destruct thr0; reflexivity. Qed.
+
+Lemma zero_map_answer_origin : forall o, zero_map_answer true false o = (Some o, None).
 Proof. reflexivity. Qed.
 
-Lemma si_run_invisible : forall c pv kps k,
+Lemma si_kp_invisible : forall c pv, thr_masks_zero (si_thr0 c) (si_fixed_Fz c) -> si_kp c pv None = (None, None).
+Proof. intros. unfold si_kp. apply zero_map_answer_nan. assumption. Qed.
+
+Lemma si_run_invisible : forall c pv kps k, thr_masks_zero (si_thr0 c) (si_fixed_Fz c) ->
   nth_error kps k = Some None -> nth_error (si_run c pv kps) k = Some (None, None).
-Proof. intros. unfold si_run. apply (map_nth_error (si_kp c pv) _ _ H). Qed.
+Proof.
+  intros c pv kps k Hz H. unfold si_run. rewrite (map_nth_error (si_kp c pv) _ _ H).
+  rewrite si_kp_invisible by assumption. reflexivity.
+Qed.
 
 Lemma si_run_nth : forall c pv kps k p,
   nth_error kps k = Some p -> nth_error (si_run c pv kps) k = Some (si_kp c pv p).
@@ -143,7 +156,7 @@ Proof.
   unfold si_kp in Hk.
   assert (Heff : snd (si_geom c pv) = si_eff c) by reflexivity.
   destruct (si_geom c pv) as [[gx gy] eff] eqn:G. cbn [fst snd] in *. subst eff.
-  destruct (Qle_bool (si_lthr c) _); [|discriminate].
+  destruct (above_global (si_thr0 c) (si_lthr c) _); [|discriminate].
   inversion Hk; subst; clear Hk.
   split.
   - rewrite si_decode_eq by assumption. apply decode_bound_gen; try assumption.
@@ -239,7 +252,7 @@ Qed.
 
 Definition wit_f8 : si_cfg :=
   {| si_H := 64; si_W := 64; si_mh := None; si_mw := None; si_scale := 1 # 2; si_ms := 16; si_os := 2;
-     si_sigma := 3 # 2; si_lthr := - (1609438 # 1000000); si_fixed_F8 := false |}.
+     si_sigma := 3 # 2; si_lthr := - (1609438 # 1000000); si_fixed_F8 := false; si_thr0 := false; si_fixed_Fz := false |}.
 
 Theorem provider_independence_refuted :
   exists c x y xl yl al xv yv av,
@@ -259,7 +272,7 @@ Qed.
 (* ------------------------------------------------------------------ refutations of the plain half-cell bound *)
 Definition wit_f10 : si_cfg :=
   {| si_H := 64; si_W := 64; si_mh := None; si_mw := None; si_scale := 1; si_ms := 1; si_os := 4;
-     si_sigma := 3 # 2; si_lthr := - (1609438 # 1000000); si_fixed_F8 := false |}.
+     si_sigma := 3 # 2; si_lthr := - (1609438 # 1000000); si_fixed_F8 := false; si_thr0 := false; si_fixed_Fz := false |}.
 
 (* F10: without the band hypothesis si_plain_half_cell fails *)
 Theorem last_half_cell_band_refuted :
@@ -278,7 +291,7 @@ Qed.
 
 Definition wit_f11 : si_cfg :=
   {| si_H := 64; si_W := 64; si_mh := None; si_mw := None; si_scale := 1 # 2; si_ms := 1; si_os := 1;
-     si_sigma := 3 # 2; si_lthr := - (1609438 # 1000000); si_fixed_F8 := false |}.
+     si_sigma := 3 # 2; si_lthr := - (1609438 # 1000000); si_fixed_F8 := false; si_thr0 := false; si_fixed_Fz := false |}.
 
 (* F11: with a resize step the error can exceed the half cell although the
    keypoint is inside the band and in general position *)
@@ -300,8 +313,9 @@ Proof.
 Qed.
 
 (* ------------------------------------------------------------------ top-down *)
-Lemma td_kp_invisible : forall c g tlx tly, td_kp c g tlx tly None = (None, None).
-Proof. reflexivity. Qed.
+Lemma td_kp_invisible : forall c g tlx tly, thr_masks_zero (td_thr0 c) (td_fixed_Fz c) ->
+  td_kp c g tlx tly None = (None, None).
+Proof. intros. unfold td_kp. apply zero_map_answer_nan. assumption. Qed.
 
 (* The instance-stage bound holds for EVERY crop corner (tlx, tly): whatever
    cell the centroid stage picked (quantisation, refinement, even a wrong
@@ -320,7 +334,7 @@ Theorem td_kp_within : forall c g tlx tly x y px py a,
 Proof.
   intros c g tlx tly x y px py a Hos Hs He Hnx Hny Hk Bx By.
   unfold td_kp in Hk.
-  destruct (Qle_bool (td_lthr c) _); [|discriminate].
+  destruct (above_global (td_thr0 c) (td_lthr c) _); [|discriminate].
   inversion Hk; subst; clear Hk.
   split.
   - rewrite td_decode_eq by assumption. apply td_decode_bound_gen; try assumption.
@@ -386,7 +400,8 @@ Theorem td_frame_within : forall c ans inst,
   In inst (td_frame c ans) ->
   exists an, In an ans /\
     length (ti_pts inst) = length (an_kps an) /\
-    (forall k, nth_error (an_kps an) k = Some None -> nth_error (ti_pts inst) k = Some (None, None)) /\
+    (forall k, thr_masks_zero (td_thr0 c) (td_fixed_Fz c) ->
+       nth_error (an_kps an) k = Some None -> nth_error (ti_pts inst) k = Some (None, None)) /\
     (forall k x y px py a,
        nth_error (an_kps an) k = Some (Some (x, y)) ->
        nth_error (ti_pts inst) k = Some (Some (px, py), Some a) ->
@@ -406,7 +421,8 @@ Proof.
   destruct (td_cent_peak c (td_geom c) (an_cent an)) as [[[cx cy] a0]|]; [|discriminate].
   inversion E; subst inst; clear E. unfold td_instance_at. cbn [ti_pts ti_tl fst snd].
   split; [apply map_length|]. split.
-  - intros k Hk. apply (map_nth_error (td_kp c (td_geom c) _ _) _ _ Hk).
+  - intros k Hz Hk. rewrite (map_nth_error (td_kp c (td_geom c) _ _) _ _ Hk).
+    rewrite td_kp_invisible by assumption. reflexivity.
   - intros k x y px py a Hk Hp Bx By.
     rewrite (map_nth_error (td_kp c (td_geom c) _ _) _ _ Hk) in Hp.
     inversion Hp as [Hp']. eapply td_kp_within; eassumption.
@@ -493,9 +509,9 @@ Qed.
 Definition wit_gt : td_cfg :=
   {| td_H := 64; td_W := 64; td_mh := None; td_mw := None; td_sc := 1; td_si := 1 # 2;
      td_msc := 16; td_msi := 16; td_osc := 2; td_osi := 2; td_ch := 32; td_cw := 32;
-     td_sigma := 3 # 2; td_lthr := - (1609438 # 1000000) |}.
+     td_sigma := 3 # 2; td_lthr := - (1609438 # 1000000); td_thr0 := false; td_fixed_Fz := false |}.
 
-(* as pinned: the crop is cut from the un-resized image but decoded as if it were resized *)
+(* pinned tree (before fix 552121e), historic: the crop is cut from the un-resized image but decoded as if it were resized *)
 Theorem td_gt_refuted :
   exists c kps tl pts ms x y px py a,
     td_gt_instance false c kps = Some (tl, pts, ms) /\
@@ -530,6 +546,6 @@ Proof. reflexivity. Qed.
 Definition wit_td : td_cfg :=
   {| td_H := 96; td_W := 120; td_mh := Some 128%Z; td_mw := Some 128%Z; td_sc := 1 # 2; td_si := 3 # 4;
      td_msc := 16; td_msi := 16; td_osc := 2; td_osi := 2; td_ch := 48; td_cw := 48;
-     td_sigma := 3 # 2; td_lthr := - (1609438 # 1000000) |}.
+     td_sigma := 3 # 2; td_lthr := - (1609438 # 1000000); td_thr0 := false; td_fixed_Fz := false |}.
 Definition wit_animal : animal :=
   {| an_cent := (241 # 8, 243 # 8); an_kps := [Some (40, 24); None; Some (163 # 8, 301 # 8)] |}.
